@@ -141,7 +141,7 @@ def judge_cases(ctx: Ctx, cases, kind, extra_lines=(), selftest=False):
         ln["t"] = len(lines) + k
     t0 = ctx.elapsed()
     ndrift = len(ctx.model_drift)
-    rejects = ctx.judge(AREA, "HttpExcTrace", lines + [x[2] for x in corrupted], batch=700)
+    rejects = ctx.judge(AREA, "HttpExcTrace", lines + [x[2] for x in corrupted], batch=1000)
     ctx.notes["wall_judge_s"] = round(ctx.notes.get("wall_judge_s", 0) + ctx.elapsed() - t0, 1)
     kinds = ctx.notes.setdefault("model_drift_kinds", {})
     for d in ctx.model_drift[ndrift:]:
@@ -199,7 +199,7 @@ class _Tlc:
 
     def __init__(self, ctx: Ctx, runs):
         self.ctx, self.runs = ctx, runs
-        per = max(2, min(4, ctx.workers // 4))
+        per = max(2, min(8, ctx.workers // 2)) if len([r for r in runs if r[2] == "check"]) == 1 else max(2, min(4, ctx.workers // 4))
         self.ex = cf.ThreadPoolExecutor(max_workers=max(4, ctx.workers // 2))
 
         def one(run):
@@ -286,9 +286,9 @@ def run(ctx: Ctx):
         "the committed model follows fixes/X08-retry-after-zero.diff and fixes/X08-append-slash-redirect-unquoted-tail.diff; the "
         "two pre-fix behaviours are kept as broken model variants (orig_retry0, orig_slash)",
     ]
-    size = "Q" if q else "T"
-    runs = [("x_" + f, ("MCX_" if q else "MCXT_") + f, "export") for f in FAMILIES]
-    runs += [("mc_" + f, f"MC{size}_{f}", "check") for f in FAMILIES]
+    fams = ["all"] if q else FAMILIES          # quick: the four tables in one TLC process (fewer JVM starts)
+    runs = [("x_" + f, ("MCX_" if q else "MCXT_") + f, "export") for f in fams]
+    runs += [("mc_" + f, ("MCQ_" if q else "MCT_") + f, "check") for f in fams]
     for m in (QUICK_MUTANTS if q else list(MUTANTS)):
         runs.append(("m_" + m, "MCB_" + m, "mutant"))
     bg = _Tlc(ctx, runs)
@@ -300,14 +300,13 @@ def run(ctx: Ctx):
     samples = lines[nfix:: max(1, len(lines) // 3)][:3]
 
     # 2. spec -> code
-    res = bg.collect({"x_" + f for f in FAMILIES})
-    cases = []
+    res = bg.collect({"x_" + f for f in fams})
+    cases = [v for f in fams for v in res["x_" + f].printed if isinstance(v, dict) and v.get("op") in ("render", "redirect", "abort")]
     for f in FAMILIES:
-        cs = [v for v in res["x_" + f].printed if isinstance(v, dict) and v.get("op") in ("render", "redirect", "abort")]
-        ctx.notes["exported_" + f] = len(cs)
-        if len(cs) < (LEAST_EXPORTED[f] if q else 2 * LEAST_EXPORTED[f]):
-            raise tlc.MachineryError(f"export {f}: only {len(cs)} cases")
-        cases += cs
+        n = len([c for c in cases if (c.get("fn") == "slash") == (f == "slash") and c["op"] == ("redirect" if f == "slash" else f)])
+        ctx.notes["exported_" + f] = n
+        if n < (LEAST_EXPORTED[f] if q else 2 * LEAST_EXPORTED[f]):
+            raise tlc.MachineryError(f"export {f}: only {n} cases")
     cases = _expand_exported(cases)
     ctx.notes["exported_cases_replayed"] = len(cases)
     lines = judge_cases(ctx, cases, "exported")
